@@ -2,6 +2,7 @@
     defined order.  Only statements; proofs are [exact <lemma>]. *)
 Require Import AT.Model.Base AT.Model.Rose AT.Model.Iter AT.Spec.IterSpec.
 Require AT.Proofs.IterC05.
+Require AT.Model.Heap AT.Model.Abs AT.Spec.MutSpec AT.Proofs.ForestCover.
 From Coq Require Import Permutation.
 Local Open Scope Z_scope.
 
@@ -43,6 +44,23 @@ Theorem C05_exactly_once : forall t, NoDup (preorder t) ->
    Permutation (concat (zigzag_spec false (levels t))) (preorder t)).
 Proof. exact IterC05.c05_exactly_once. Qed.
 Print Assumptions C05_exactly_once.
+
+(** the hypothesis "node identities distinct" is not an assumption about the
+    input: it holds for the unfolding below every node of every consistent
+    link state (C01), so on every tree that the library's operations can
+    produce each iterator yields every node of the subtree exactly once *)
+Theorem C05_exactly_once_on_every_forest : forall h, AT.Spec.MutSpec.Inv h -> forall r,
+  let t := AT.Model.Abs.tree_of h r in
+  NoDup (preorder t) /\
+  (NoDup (postorder t) /\ Permutation (postorder t) (preorder t)) /\
+  (NoDup (levelorder t) /\ Permutation (levelorder t) (preorder t)) /\
+  (NoDup (concat (zigzag_spec false (levels t))) /\
+   Permutation (concat (zigzag_spec false (levels t))) (preorder t)).
+Proof.
+  intros h I r t. split; [exact (AT.Proofs.ForestCover.tree_of_nodup h I r)|].
+  exact (IterC05.c05_exactly_once t (AT.Proofs.ForestCover.tree_of_nodup h I r)).
+Qed.
+Print Assumptions C05_exactly_once_on_every_forest.
 
 Example C05_example :
   let t := T 0%nat [T 1%nat [T 2%nat []; T 3%nat []]; T 4%nat [T 5%nat []]] in
